@@ -1128,7 +1128,12 @@ func boundsFlowByEvaluation(p *Prog, r *Report, rule, key string, fn *ssa.Functi
 			}
 		}
 		if sm.lo != -2 {
-			o := obs[0]
+			var o parseObs
+			for _, c := range obs {
+				if c.factory == "NewASCIINodeVariable" {
+					o = c
+				}
+			}
 			if o.factory != "NewASCIINodeVariable" || len(o.args) != 3 || o.args[1].K != KInt || o.args[2].K != KInt {
 				return false
 			}
